@@ -68,6 +68,7 @@ type vfCfg struct {
 	DenyKeys      []string    `json:"deny_keys,omitempty"` // fixture key names whose fingerprints are deny-listed
 	PubKeys       []string    `json:"pub_keys,omitempty"`  // fixture key names pre-published in keymaster_public_keys_filename
 	Email         bool        `json:"email,omitempty"`
+	Federated     bool        `json:"federated,omitempty"` // oauth2 login through a (simulated) identity provider
 }
 
 // fixed universe of principals
@@ -195,6 +196,7 @@ type vfWorld struct {
 	cacheSynced   map[string]bool
 	agentSim      *vfAgent
 	okta          *simOkta
+	idp           *simIdP
 	pendingMods   []string // request modifiers of the step being prepared (precookie:, fwd:, peer:)
 	listenerUp    chan struct{} // closed when the emulated main() received SignerIsReady (the service listener starts then)
 	readySignals  atomic.Int32
@@ -300,6 +302,9 @@ func (w *vfWorld) writeConfig() (string, error) {
 			urls = append(urls, fmt.Sprintf("ldaps://ldap%d.sim", i+1))
 		}
 		fmt.Fprintf(&b, "ldap:\n  bind_pattern: \"uid=%%s,ou=people,dc=sim\"\n  ldap_target_urls: %q\n  disable_password_cache: %v\n", strings.Join(urls, ","), c.NoPwCache)
+	}
+	if c.Federated {
+		b.WriteString("oauth2:\n  enabled: true\n  client_id: \"km-client\"\n  client_secret: \"km-client-secret\"\n  token_url: \"https://idp.sim/token\"\n  auth_url: \"https://idp.sim/auth\"\n  userinfo_url: \"https://idp.sim/userinfo\"\n  scopes: \"openid email\"\n")
 	}
 	if c.PwBackend == "okta" {
 		b.WriteString("okta:\n  domain: \"sim\"\n  enable_2fa: true\n")
@@ -413,6 +418,7 @@ func (w *vfWorld) build() error {
 	vfhook.VipPushHasBeenApproved = w.vipsim.pushApproved
 	// everything that goes through http.DefaultClient (the Okta authenticator does) meets the simulated service
 	w.okta = newSimOkta(w)
+	w.idp = newSimIdP(w)
 	http.DefaultClient.Transport = w.okta
 
 	// globals of package main
